@@ -1,11 +1,15 @@
 //! Sequential differential harness for C17 (Access/Map projections) and C20 (serde).
 mod access_cmd;
+mod constmove;
 mod reent;
 mod serde_cmd;
 mod tok;
 
 fn main() {
     let args: Vec<String> = std::env::args().collect();
+    if args.len() >= 2 && args[1] == "constmove" {
+        std::process::exit(constmove::main());
+    }
     if args.len() >= 2 && args[1] == "reentrant" {
         std::process::exit(reent::main());
     }
